@@ -149,17 +149,77 @@ Definition limit_fin (n bound : N) (l : list row) : list row :=
   let m := N.min n bound in
   if m <? N.of_nat (List.length l1) then firstn (N.to_nat m) l1 else l1.
 
+(* ---- time binning inside PostProcess (pkg/results/time_bin.go), restated from the C13 model ----- *)
+(* Go's == on Labels / MergeableAttributes: timestamps with their zone, strings, addresses *)
+Definition labels_eqb (a b : labels) : bool :=
+  t_eqeq (l_ts a) (l_ts b) && String.eqb (l_iface a) (l_iface b) && String.eqb (l_host a) (l_host b)
+  && String.eqb (l_hostid a) (l_hostid b).
+Definition gokey_eqb (a b : row) : bool :=
+  labels_eqb (r_labels a) (r_labels b) && attrs_eqb (r_attrs a) (r_attrs b).
+
+Definition ns_per_s : Z := 1000000000.
+Definition five_min_ns : Z := 300000000000.                 (* types.DefaultTimeResolution *)
+Definition zero_inst : Z := (-62135596800000000000)%Z.       (* time.Time{} : IsZero *)
+Definition zone_local : Z := 100.                            (* time.Unix(..) carries time.Local *)
+
+(* BinTimestamp(ts, binSize) with s = int64(binSize.Seconds()); Go's % truncates (Z.rem).
+   int64 overflow is not modelled (|ts| + s < 2^63 in every run). *)
+Definition bin_sec (ts s : Z) : Z :=
+  (if s <=? 0 then ts else
+   let r := Z.rem ts s in
+   if r =? 0 then ts else if r <? 0 then ts - r else (ts - r) + s)%Z.
+
+(* loop body of BinTime: rows with a zero timestamp keep it, all others get time.Unix(bin, 0) *)
+Definition bin_row (size_ns : Z) (r : row) : row :=
+  let t := l_ts (r_labels r) in
+  if Z.eqb (inst t) zero_inst then r
+  else
+    let sec := Z.div (inst t) ns_per_s in                    (* Timestamp.Unix() *)
+    let b := bin_sec sec (Z.quot size_ns ns_per_s) in
+    {| r_labels := {| l_ts := {| inst := Z.mul b ns_per_s; zone := zone_local |};
+                      l_iface := l_iface (r_labels r); l_host := l_host (r_labels r);
+                      l_hostid := l_hostid (r_labels r) |};
+       r_attrs := r_attrs r; r_counters := r_counters r |}.
+
+Definition cadd (a b : counters) : counters :=               (* Counters.Add: uint64 += *)
+  {| c_br := add64 (c_br a) (c_br b); c_bs := add64 (c_bs a) (c_bs b);
+     c_pr := add64 (c_pr a) (c_pr b); c_ps := add64 (c_ps a) (c_ps b) |}.
+
+(* RowsMap.MergeRow; the Go map as a list in first-insertion order (its iteration order is random,
+   the sort that follows makes the order irrelevant: c14_order_independent) *)
+Fixpoint merge_row (x : row) (m : list row) : list row :=
+  match m with
+  | [] => [x]
+  | y :: t => if gokey_eqb y x
+              then {| r_labels := r_labels y; r_attrs := r_attrs y;
+                      r_counters := cadd (r_counters y) (r_counters x) |} :: t
+              else y :: merge_row x t
+  end.
+Definition merge_rows (l : list row) : list row := fold_left (fun m x => merge_row x m) l [].
+
+(* TimeBinner.BinTime: merge the binned rows, then ToRowsSortedTo(By(SortTime, DirectionSum, true)) *)
+Definition rebin (size_ns : Z) (l : list row) : list row :=
+  sort_rows (cmp_time row_less true) (merge_rows (map (bin_row size_ns) l)).
+
+(* the rows the limit is applied to. [tb] = Some TimeBinSize when the statement selects the time label
+   (LabelSelector.Timestamp), None otherwise; binning runs unless the size is the default 5 minutes *)
+Definition stage (tb : option Z) (s : list row) : list row :=
+  match tb with
+  | Some size => if Z.eqb size five_min_ns then s else rebin size s
+  | None => s
+  end.
+
 (* ---- the two pipelines that are observed ------------------------------------------------------ *)
 (* results.By(k, d, asc).Sort(rows), then Statement.PostProcess *)
 Definition run_sort (k d : Z) (asc : bool) (l : list row) : res (list row) :=
   match by_ k d asc with Ok less => Ok (sort_rows less l) | _ => Panic end.
-Definition run_pp (k d : Z) (asc : bool) (n : N) (l : list row) : res (list row) :=
-  match run_sort k d asc l with Ok s => Ok (limit_pp n s) | _ => Panic end.
+Definition run_pp (k d : Z) (asc : bool) (tb : option Z) (n : N) (l : list row) : res (list row) :=
+  match run_sort k d asc l with Ok s => Ok (limit_pp n (stage tb s)) | _ => Panic end.
 (* finalizeResult: nothing happens for an empty row map (By is not even called) *)
-Definition run_fin (k d : Z) (asc : bool) (n bound : N) (l : list row) : res (list row) :=
+Definition run_fin (k d : Z) (asc : bool) (tb : option Z) (n bound : N) (l : list row) : res (list row) :=
   match l with
   | [] => Ok []
-  | _ => match run_sort k d asc l with Ok s => Ok (limit_fin n bound s) | _ => Panic end
+  | _ => match run_sort k d asc l with Ok s => Ok (limit_fin n bound (stage tb s)) | _ => Panic end
   end.
 
 (* ---- the identity of a row for ordering purposes: attributes and labels, the timestamp as an instant *)
